@@ -441,6 +441,12 @@ struct Gen {
         if (o.step_events) for (int s = 1; s < ns; ++s) {
             auto& st = m.steps[static_cast<size_t>(s)];
             int ne = static_cast<int>(rng.below(4));
+            if (o.late_edits && rng.chance(0.3)) {
+                // an injector that exists since block 0 becomes a producer (kept frequent on its own: the many other families of later
+                // blocks had diluted it below what a quick run meets)
+                std::vector<const WellDef*> inj; for (auto& w : m.wells) if (w.kind != "OPROD") inj.push_back(&w);
+                if (!inj.empty()) { WellDef sw = *inj[rng.below(inj.size())]; sw.history = false; sw.kind = "OPROD"; st.kws.push_back(wcon(sw, "OPEN")); }
+            }
             for (int e = 0; e < ne; ++e) {
                 double u = rng.unit(); Kw k;
                 const WellDef& w = m.wells[rng.below(m.wells.size())];
